@@ -205,6 +205,18 @@ def _gate_kind(eng, fn: FunctionInfo, e: ast.AST, objtxt: str, first_call: ast.C
             if k == "eof":
                 return None  # `x = obj.eof` tested later: not an accepted idiom
             return k
+        # `x = A ; if not x: x = B`  is  `x = A or B`  (the short-circuit `or` written in two steps)
+        plain = [d for d in defs if d[0] == "assign" and not d[2] and isinstance(d[1], ast.AST) and id(d[1]) in eng.flow._rhs_stmt]
+        if len(defs) == 2 and len(plain) == 2:
+            s1, s2 = eng.flow._rhs_stmt[id(plain[0][1])], eng.flow._rhs_stmt[id(plain[1][1])]
+            if s1.lineno > s2.lineno:
+                s1, s2, plain = s2, s1, [plain[1], plain[0]]
+            par = eng.prog.parent(s2)
+            neg_here = isinstance(par, ast.If) and ((s2 in par.body and isinstance(par.test, ast.UnaryOp) and isinstance(par.test.op, ast.Not) and norm(par.test.operand) == e.id and not par.orelse)
+                                                    or (s2 in par.orelse and norm(par.test) == e.id and all(isinstance(x, ast.Pass) for x in par.body)))
+            if neg_here and eng.prog.parent(s1) is eng.prog.parent(par):
+                both = ast.BoolOp(op=ast.Or(), values=[plain[0][1], plain[1][1]])
+                return _gate_kind(eng, fn, both, objtxt, first_call, depth + 1)
     return None
 
 
